@@ -574,7 +574,7 @@ theorem lex_call (c : Call) (follow : Str) (sig : List Tok) (hv : c.valid follow
 
 /-! ### doccomments -/
 
-theorem DocC.tokenText_eq (d : DocC) : d.tokenText = docStart ++ (d.inner ++ docEnd) := by
+theorem DocC.tokenText_eq_inner (d : DocC) : d.tokenText = docStart ++ (d.inner ++ docEnd) := by
   simp [DocC.tokenText, DocC.inner]
 
 theorem eolStr_head (crlf : Bool) (x : Str) : ∃ c y, eolStr crlf ++ x = c :: y ∧ isEolCh c = true := by
@@ -591,9 +591,9 @@ theorem lex_doc (d : DocC) (isModule : Bool) (follow : Str) (sig : List Tok) (hv
   refine lex_sep d.pre _ hpre _ (Skips.blanks _ _ hind _ ?_)
   have hf' : findAfter docEnd (d.inner ++ docEnd ++ follow) = some (d.inner.length + 3) := findAfter_append follow hf
   have hlen : d.tokenText.length = d.inner.length + 3 + 4 := by
-    rw [DocC.tokenText_eq]; simp [docStart_eq, docEnd_eq]
+    rw [DocC.tokenText_eq_inner]; simp [docStart_eq, docEnd_eq]
   have hsplit : d.tokenText ++ follow = docStart ++ (d.inner ++ docEnd ++ follow) := by
-    rw [DocC.tokenText_eq]; simp
+    rw [DocC.tokenText_eq_inner]; simp
   cases isModule with
   | false =>
     have hos : (lit "@module").isPrefixOf (d.openSuffix.dropWhile isBlank) = false := by
@@ -1013,10 +1013,10 @@ endfunction()
 a documented function with a quoted argument containing an escaped quote, a bracket argument, a parenthesised
 group, a line comment between arguments and a bracket comment before a command. -/
 
-def exDoc : DocC :=
+def exLexDoc : DocC :=
   { pre := [], ind := [], openSuffix := [], lines := [['D', 'o', 'c', ' ', 'o', 'f', ' ', 'f']], leader := true, crlf := false }
 
-def exOpener : Call :=
+def exLexOpener : Call :=
   { pre := [.nl false], name := ['f', 'u', 'n', 'c', 't', 'i', 'o', 'n'], sp := 0,
     args := [.tok [] (.bare ['f']),
              .tok [.spaces 1] (.quoted ['a', '\\', '"', 'b']),
@@ -1025,16 +1025,16 @@ def exOpener : Call :=
              .tok [.spaces 1, .lineComment [' ', 'c'] (some false), .spaces 2] (.bare ['z'])],
     close := [] }
 
-def exCloser : Call :=
+def exLexCloser : Call :=
   { pre := [.nl false, .bracketComment 0 [' ', 'b', 'c', ' '], .nl false], name := ['e', 'n', 'd', 'f', 'u', 'n', 'c', 't', 'i', 'o', 'n'], sp := 0,
     args := [], close := [] }
 
-def exModule : Module :=
-  { bom := false, modDoc := none, items := [.block (some exDoc) exOpener [] exCloser], tail := [.nl false] }
+def exLexModule : Module :=
+  { bom := false, modDoc := none, items := [.block (some exLexDoc) exLexOpener [] exLexCloser], tail := [.nl false] }
 
-example : exModule.valid = true := by decide
+example : exLexModule.valid = true := by decide
 
-example : exModule.render =
+example : exLexModule.render =
     ['#', '[', '[', '[', '\n', '#', ' ', 'D', 'o', 'c', ' ', 'o', 'f', ' ', 'f', '\n', '#', ']', ']', '\n', 'f', 'u', 'n', 'c', 't', 'i', 'o', 'n', '(', 'f', ' ', '"', 'a', '\\', '"', 'b', '"', ' ', '[', '=', '[', 'x', ' ', ']', ']', ' ', 'y', ']', '=', ']', ' ', '(', 'g', ' ', 'h', ')', ' ', '#', ' ', 'c', '\n', ' ', ' ', 'z', ')', '\n', '#', '[', '[', ' ', 'b', 'c', ' ', ']', ']', '\n', 'e', 'n', 'd', 'f', 'u', 'n', 'c', 't', 'i', 'o', 'n', '(', ')', '\n'] := by
   decide
 
